@@ -106,8 +106,19 @@ struct J
         std::snprintf(buf, sizeof buf, "%lld.0", static_cast<long long>(v));
         return buf;
       }
-    if (st.exp_numbers) std::snprintf(buf, sizeof buf, "%.17e", v);
-    else std::snprintf(buf, sizeof buf, "%.17g", v);
+    if (integral && st.exp_numbers)
+      {
+        // integral value re-spelled with an exponent: digits without trailing zeros + "e<zeros>" (parsed exactly by any reader)
+        std::snprintf(buf, sizeof buf, "%lld", static_cast<long long>(v));
+        std::string d = buf;
+        int z = 0;
+        while (d.size() > 1 && d.back() == '0') { d.pop_back(); ++z; }
+        return v == 0 ? std::string("0e0") : d + "e" + std::to_string(z);
+      }
+    // non-integral numbers have exactly one spelling (shortest-safe 17 significant digits) in every style:
+    // the library's JSON reader is not correctly rounded for long digit strings, so re-spelling them is
+    // not a pure formatting change
+    std::snprintf(buf, sizeof buf, "%.17g", v);
     return buf;
   }
   static std::string quote(const std::string &s)
